@@ -1054,6 +1054,7 @@ def _store(run, P):
                        why="pop without default raises KeyError for an absent key")
     if n == 0:
         raise AnalysisError("no store deletion found in exec_* methods")
+    run.do(_generated_del, run, P)
     f = P.func("dagrt.expression.EvaluationMapper.map_variable")
     g = CFG(f.node)
     live = g.reachable([g.entry], include_start=True)
@@ -1064,6 +1065,57 @@ def _store(run, P):
            construct="map_variable returns a value or raises on every path",
            why="reading a never-assigned temporary silently yields None in the "
                "interpreter and raises NameError in generated code")
+
+
+def _emitted_text(call):
+    """template text of an emission: constants kept, interpolations as {<source>}"""
+    if not call.args:
+        return None
+    a = call.args[0]
+    if isinstance(a, ast.Constant) and isinstance(a.value, str):
+        return a.value
+    if isinstance(a, ast.JoinedStr):
+        return "".join(v.value if isinstance(v, ast.Constant) else "{" + norm(v.value, 60) + "}"
+                       for v in a.values)
+    if isinstance(a, ast.Call) and isinstance(a.func, ast.Attribute) and a.func.attr == "format":
+        return string_value(a.func.value)
+    return None
+
+
+def _generated_del(run, P):
+    """The counterpart of the tolerant deletion in generated code: a loop that runs no
+    iteration never binds its variable, so `del <loop variable>` after a loop is emitted
+    only behind a statement that binds it."""
+    G = P.cls("dagrt.codegen.python.CodeGenerator")
+    n_del = 0
+    for name, f in sorted(G.methods.items()):
+        if not name.startswith("emit_"):
+            continue
+        local = _single_locals(f.node)
+        ems = [x for x in ast.walk(f.node) if isinstance(x, ast.Call)
+               and dotted(x.func) in ("self._emit", "emitter", "self._emitter")]
+        ems.sort(key=lambda x: (x.lineno, x.col_offset))
+        texts = [(_emitted_text(x), x) for x in ems]
+        # the loops of a statement are turned into ForLoop nodes by the lowering (the table
+        # clause of C05 decides that): a printer's own walk over <inst>.loops meets none
+        own_walk = {id(y) for l_ in ast.walk(f.node) if isinstance(l_, ast.For)
+                    and isinstance(l_.iter, ast.Attribute) and l_.iter.attr == "loops"
+                    and isinstance(l_.iter.value, ast.Name) and l_.iter.value.id in f.params
+                    for y in ast.walk(l_)}
+        for i, (t, x) in enumerate(texts):
+            if not t or not t.startswith("del ") or id(x) in own_walk:
+                continue
+            what = t[4:].strip()
+            n_del += 1
+            prev = texts[i - 1][0] if i else None
+            ok = prev is not None and prev.startswith(what + " = ")
+            run.ob("C01.store", f, x, ok,
+                   construct=f"{name}: emitted 'del {what}' follows an emitted binding of the same name",
+                   why="a loop over an empty range binds nothing: the generated step raises "
+                       "UnboundLocalError where the interpreter (pop with a default) goes on")
+    run.ob("C01.store", G, None, True,
+           construct=f"Python generator: {n_del} emitted del statement(s) examined",
+           why="scan summary")
 
 
 def _del_tolerant(f, g, s, t):
